@@ -5,35 +5,36 @@ props = [json.loads(l) for l in open("/verif/properties.jsonl")]
 fix_commits = subprocess.run(["git", "-C", "/repo", "log", "--format=%H %s"], capture_output=True, text=True).stdout.splitlines()
 fix_commits = [l.split()[0] for l in fix_commits if " fix:" in l]
 TEXT = {
- "C01": ("theorems over all element trees and environments (properties/C01.v: shape invariant of the collector by induction over the tree, no CaretDepthError) + correspondence of the nesting shapes of all 15 part attributes with /repo on generated packages and the corpus + shape oracle on /repo's values", "8 C01"),
+ "C01": ("theorems over all element trees and environments (properties/C01.v: shape invariant of the collector by induction over the tree, no CaretDepthError) + correspondence of the nesting shapes of all 15 part attributes with /repo on generated packages and the corpus + shape oracle on /repo's values + source translation: _get_elem_depth (BFS = min distance, 1..4), get_par_strings/_join_runs, and the caret methods of DepthCollector in a heap embedding refine the model (alias stack = rightmost spine)", "8 C01"),
  "C02": ("refinement theorem: a paragraph of inline content yields exactly one record whose tokens are label + marker + the children's contributions in order; merge keeps the atom sequence (partial, counterexample proved); correspondence of all plain strings; reference-rendering oracle per paragraph", "8 C02"),
- "C03": ("theorems on the view functions (address-wise agreement of the three forms, concatenation of document*, text) for arbitrary nested input + correspondence of all views + the four equalities evaluated on /repo's values", "8 C03"),
+ "C03": ("theorems on the view functions (address-wise agreement of the three forms, concatenation of document*, text) for arbitrary nested input + correspondence of all views + the four equalities evaluated on /repo's values + source translation: get_par_strings, _join_runs, flatten_text equal the model", "8 C03"),
  "C04": ("grid theorems for every tiling (n x m, duplicate / blank, agreement off merges) + END-TO-END refinement: walking a whole tbl/tr/tc/p table from any reachable state appends exactly the grid function's table, each position holding the records of the source cell covering it (GridWalk; side condition refuted without it) + correspondence + cell-by-cell grid oracle", "8 C04"),
- "C05": ("lineage theorem for every directly nested table walked from any state, free-paragraph theorem, element/style from the paragraph refinement + correspondence of lineage/style/element + oracle on /repo's records, predicates and get_headings", "8 C05"),
+ "C05": ("lineage theorem for every directly nested table walked from any state, free-paragraph theorem, element/style from the paragraph refinement + correspondence of lineage/style/element + oracle on /repo's records, predicates and get_headings + source translation: is_tbl/is_tr/is_tc equal the model", "8 C05"),
  "C06": ("merge theorems (atoms preserved, idempotent - both partial with machine-checked counterexamples for each dropped hypothesis) + correspondence at run granularity + metamorphic re-splitting oracle", "8 C06"),
- "C07": ("balance theorem for every document (nested paragraphs and link bodies included), escaping theorems, vocabulary over the regenerated formatter table, switched-off properties produce no tag + correspondence of html strings + tokenizer oracle (balance, vocabulary, escapes, projection onto plain, per-character tag sets exactly those of the source run properties)", "8 C07"),
- "C08": ("unbounded theorems for letters, Roman 1..3999 by kernel computation, counting rule for every history, sorted positions, marker layout + correspondence of the renderers and of list documents + oracle recomputing counts and marker text", "8 C08"),
+ "C07": ("balance theorem for every document (nested paragraphs and link bodies included), escaping theorems, vocabulary over the regenerated formatter table, switched-off properties produce no tag + correspondence of html strings + tokenizer oracle (balance, vocabulary, escapes, projection onto plain, per-character tag sets exactly those of the source run properties) + source translation: html_open/html_close, Run.__str__, Par.run_strings equal the model", "8 C07"),
+ "C08": ("unbounded theorems for letters, Roman 1..3999 by kernel computation, counting rule for every history, sorted positions, marker layout + correspondence of the renderers and of list documents + oracle recomputing counts and marker text + source translation: the six renderers and _increment_list_counter equal the model for all arguments", "8 C08"),
  "C09": ("path-inference theorems (relative, absolute, root, own rels; the two failing classes refuted) + correspondence of file list and all attributes on re-laid-out packages + layout-invariance oracle", "8 C09"),
  "C10": ("marker theorems via the paragraph refinement (link resolved / anchor / fallback, one run, note references, note labels) + correspondence at run granularity and of utilities.get_links (regex re-implemented in Utilities.v) + oracle against relationships and get_links", "8 C10"),
- "C11": ("theorems on the images mapping (sound, complete, missing skipped); files on disk are observed only: oracle compares folder listing and bytes; partial", "8 C11"),
+ "C11": ("theorems on the images mapping (sound, complete, missing skipped); files on disk are observed only: oracle compares folder listing and bytes; partial + file-system model (Fs.v): exactly the images are written, byte-identical, nothing else changes", "8 C11"),
  "C12": ("prefix-monotonicity theorems for run strings at comment markers, bounds of recorded ranges, mismatch outcomes (partial: single open paragraph; counterexamples proved) + correspondence of comments + anchor oracles", "8 C12"),
  "C13": ("totality theorem: local success of every element implies success of the whole walk and rendering (table-free, marker-free trees), internal errors unreachable for every input + correspondence of outcome classes on the edge stream + no-exception oracle", "8 C13"),
- "C14": ("state-machine theorems over all histories (reads return the value, cache monotone) + correspondence of outcome sequences + purity/freshness/input-untouched oracles; partial: Python heap aliasing observed only", "8 C14"),
+ "C14": ("state-machine theorems over all histories (reads return the value, cache monotone) + correspondence of outcome sequences + purity/freshness/input-untouched oracles; partial: Python heap aliasing observed only + source translation with the heap embedding: get_par_strings / _join_runs / Par.run_strings return freshly allocated lists and modify no existing cell; mutating a result cannot change the collector's represented state", "8 C14"),
  "C15": ("theorems over all histories (outcomes, never reopened, close idempotent, exit = close) + correspondence + descriptor / reopen / exception-identity oracles; partial: OS descriptors observed only", "8 C15"),
  "C16": ("theorems on the written archive (copied members exact, rewritten members = cached trees, names, duplicate refuted, second save via merge idempotence) + member-by-member correspondence + round-trip oracles", "8 C16"),
  "C17": ("node-level commutation theorem with the forced side condition, frame theorems, trailing-newline refutation + correspondence of the written archive + paragraph-wise commutation oracle", "8 C17"),
  "C18": ("theorems: the whole extraction is equal under any injective renaming of namespace URIs; XML comments, PIs and inter-element whitespace are invisible to merge + walk (TriviaFacts; equation clause and prefix clause shown necessary); attribute order and other prefixes irrelevant + correspondence on six serialisation variants + invariance oracle; partial: encoding/compression live in lxml/zipfile", "8 C18"),
- "C19": ("theorems: paragraph structure independent of html setting and inline merging, html reaches the walk only through the formatter table, dup local to merged positions + correspondence of the structural projection + pairwise option oracle", "8 C19"),
- "C20": ("theorems for arbitrary nested lists and all depths (complete, sorted, indexable, iter = enum, bad depth) + exhaustive small trees + wide trees compared with the model and checked directly; html map by correspondence and oracle", "8 C20"),
+ "C19": ("theorems: paragraph structure independent of html setting and inline merging, html reaches the walk only through the formatter table, dup local to merged positions + correspondence of the structural projection + pairwise option oracle + the returned images mapping does not depend on the folder (Fs.v)", "8 C19"),
+ "C20": ("theorems for arbitrary nested lists and all depths (complete, sorted, indexable, iter = enum, bad depth) + exhaustive small trees + wide trees compared with the model and checked directly; html map by correspondence and oracle + source translation: enum_at_depth / iter_at_depth and the eight helpers equal the model", "8 C20"),
 }
-PARTIAL = {"C11": "files written to disk", "C14": "heap aliasing / freshness of returned lists and caller buffers", "C15": "OS file descriptors",
+PARTIAL = {"C11": "the file system itself (mkdir / open('wb') are modelled in model/Fs.v and compared with what /repo wrote)", "C14": "caller buffers / input files (freshness of the returned lists is proved for the views translated with the heap embedding, SourceFresh.v; the heap semantics of PyHeap.v is modelled)", "C15": "OS file descriptors",
            "C18": "character encoding, XML declaration, compression, timestamps (lxml / zipfile)", "C20": "non-modification of the argument (heap) and the html map's exactly-once clause are checked by the oracle only"}
 checks = []
 for p in props:
     pid = p["id"]
     txt, ref = TEXT[pid]
     note = ("trusted base: Coq 8.16.1 kernel (vm_compute, no native_compute), no axioms (every theorem prints 'Closed under the global context'), "
-            "tools/gen_tables.py, extraction with ExtrOcamlBasic + 40-line OCaml driver, the Python correspondence harness (sampling); "
+            "tools/gen_tables.py (tables) and tools/gen_source.py / gen_source_heap.py (Python-to-Gallina translators with the Python semantics of model/PyVal.v, PyHeap.v), "
+            "extraction with ExtrOcamlBasic + 40-line OCaml driver, the Python correspondence harness (sampling); "
             "modelled not verified: lxml, zipfile, pathlib, re, copy.deepcopy, CPython.")
     if pid in PARTIAL:
         note += " PARTIAL: not in the Gallina model, observed by the harness only: " + PARTIAL[pid] + "."
@@ -46,7 +47,7 @@ for p in props:
         "engine": "coq-model+correspondence",
         "level_claimed": {"category": "proof", "text": txt, "design_ref": "DESIGN.md section " + ref},
         "level_note": note,
-        "technique": "machine-checked proof in Coq 8.16 over an executable Gallina model; model tied to /repo by regenerated tables and a differential correspondence check on every run",
+        "technique": "machine-checked proof in Coq 8.16 over an executable Gallina model; model tied to /repo on every run by tables and pure functions regenerated from the source text (translators, equality theorems) and by a differential correspondence check",
     })
 m = {
  "version": 1,
@@ -55,7 +56,7 @@ m = {
            "baseline_off_cmd": "cd /repo && /venv/bin/python -m pytest -ra -q -p no:cacheprovider --timeout=900 --continue-on-collection-errors",
            "source_commits": fix_commits, "add_only": True},
  "engines": [{"name": "coq-model+correspondence", "path": "/verif/check", "serves_properties": [p["id"] for p in props],
-              "kind_free_text": "Coq development (coq/), table translator (tools/gen_tables.py), extracted OCaml driver, Python differential harness (harness/)"}],
+              "kind_free_text": "Coq development (coq/), translators (tools/gen_tables.py, gen_source.py, gen_source_heap.py), extracted OCaml driver, Python differential harness (harness/)"}],
  "checks": checks,
  "not_applicable": [],
  "notes": "known findings and fix: commits are listed in /verif/known_findings.json; see DESIGN.md",
